@@ -1,5 +1,5 @@
 """C13 — jitter varies each tick but preserves the long-run total."""
-from ..core import ints
+from ..core import ints, hx
 from . import _plan
 ID = "C13"
 PROPS = ["F1Verif.Props.C13", "F1Verif.Props.FactsC13", "F1Verif.Props.C15", "F1Verif.Props.Pipeline"]
@@ -28,6 +28,9 @@ def corpus():
         case(0, 1, 50, [5, 7, 0, 3]),
         case(799, 8, 3000, [10, 0, 0, 0]),
         case(2, 1, 3000, [1]),
+        "pipeline %s 30 1 %s 40 staged" % (hx("1000/s"), hx("regular")),
+        "pipeline %s 30 1 %s 400 constant" % (hx("1000/s"), hx("random")),
+        "bjitter constant 1 4 500 1000", "bjitter staged 1 2 500 1000", "bjitter constant 9 10 500 12345",     # --jitter below one percent
     ]
 
 
